@@ -17,7 +17,7 @@ func init() {
 		ID:   "C15",
 		Rule: "for every band configuration, seeded histories (length <= 30) over AddChannel(f, minDR, maxDR) / DisableUplinkChannelIndex(i) / EnableUplinkChannelIndex(i) with arbitrary integers (negative, == len, huge) run in lock-step with a sequential model of the channel plan; after every operation the five index-set getters (with the partition laws), GetUplinkChannel / GetDownlinkChannel for every index -2..len+1, the frequency and frequency+DR lookups for every present pair and some absent ones, GetTXPowerOffset(-2..20) and GetCFList for the 6 protocol versions + an unknown one are compared with the model; invalid arguments must give errors, never panics, and must leave the state unchanged. Every frequency / data-rate / CFList the band hands out (RX2 and ping-slot defaults, every channel, RX1 results, CFList) is pushed through RXParamSetupReq, NewChannelReq, DLChannelReq, PingSlotChannelReq, BeaconFreqReq and CFList/JoinAcceptPayload encode->decode and must come back equal. Distinct = (band, operation kind, argument class) / (band, MAC command, source of the value).",
 		Assumptions: []string{
-			"AddChannel frequencies are multiples of 100 Hz inside the band (multiples of 200 Hz for ISM2400); frequency 0 is not generated",
+			"AddChannel frequencies are multiples of 100 Hz inside the band (multiples of 200 Hz for ISM2400) and, one time in six, any multiple of 100 Hz that a 24-bit frequency field can carry (100 MHz - 1677.7215 MHz; NewChannelReq is not asked to carry 1.2-2.4 GHz, for which it has no coding); frequency 0 is not generated",
 			"GetCFList lists custom channels regardless of their enabled flag (the property only asks for 'its custom channels, first five, in order')",
 		},
 		MinEvals: 1000,
@@ -253,9 +253,11 @@ func c15Outputs(c *core.Ctx, cfg bandCfg, b band.Band, up, down []chModel) {
 			continue
 		}
 		i, ch := i, ch
-		c15Encodable(c, cfg, "NewChannelReq", "uplink channel", func() (interface{}, interface{}, error) {
-			return roundTripMAC(&lorawan.NewChannelReqPayload{ChIndex: uint8(i), Freq: ch.freq, MinDR: uint8(ch.min), MaxDR: uint8(ch.max)})
-		})
+		if ch.freq < 1200000000 || ch.freq >= 2400000000 { // NewChannelReq has no coding for 1.2-2.4 GHz; such a custom channel is the operator's doing, not the band's
+			c15Encodable(c, cfg, "NewChannelReq", "uplink channel", func() (interface{}, interface{}, error) {
+				return roundTripMAC(&lorawan.NewChannelReqPayload{ChIndex: uint8(i), Freq: ch.freq, MinDR: uint8(ch.min), MaxDR: uint8(ch.max)})
+			})
+		}
 		rx1f, err := b.GetRX1FrequencyForUplinkFrequency(ch.freq)
 		if err == nil {
 			c15Encodable(c, cfg, "DLChannelReq", "RX1 frequency", func() (interface{}, interface{}, error) {
@@ -332,6 +334,10 @@ func runC15(c *core.Ctx) {
 				switch r.Intn(3) {
 				case 0:
 					f := reg.Uplink[0].Freq - reg.Uplink[0].Freq%step + uint32(r.Intn(40000))*step
+					if cfg.Name != "ISM2400" && r.Chance(1, 6) {
+						// an operator may add any frequency the 24-bit, 100 Hz-unit fields of CFList / DLChannelReq can carry
+						f = uint32(r.Range(1000000, 1<<24-1)) * 100
+					}
 					min, max := r.Intn(3), 3+r.Intn(5)
 					if r.Chance(1, 2) {
 						min, max = reg.CFListMinDR, reg.CFListMaxDR
